@@ -62,6 +62,13 @@ package pool
 //@   ensures lock: held(ap.RWMutex) == 0
 //@   ensures atomic@C17: sections(ap.RWMutex) <= old(sections(ap.RWMutex)) + 1
 //@   ensures unchanged(ap.datas) && unchanged(ap.individual) && unchanged(ap.aggregate)
+// what is returned matches every filter the options set (the options are closures called dynamically, so the filters only have a
+// name inside the function: the statement is the invariant of the collecting loops, over the local `conf`)
+//@   loop 2
+//@     invariant forall j :: {out[j]} 0 <= j && j < len(out) ==> out[j] != nil && (conf.slot != nil ==> out[j].Data.Slot == *conf.slot) && (conf.comm != nil ==> out[j].Data.Index == *conf.comm)
+//@   loop 3
+//@     invariant forall j :: {out[j]} 0 <= j && j < len(out) ==> out[j] != nil && (conf.slot != nil ==> out[j].Data.Slot == *conf.slot) && (conf.comm != nil ==> out[j].Data.Index == *conf.comm)
+//@     invariant (conf.slot != nil ==> d.Data.Slot == *conf.slot) && (conf.comm != nil ==> d.Data.Index == *conf.comm)
 
 // Prune(epoch) removes exactly what can no longer be included: data (and its aggregates) with
 // target epoch < previous(epoch), individual votes and per-validator marks of epochs < previous(epoch);
